@@ -86,10 +86,13 @@ pub struct Payload {
     pub uc: u8,
     pub a: bool,
     pub b: bool,
+    /// full 256-bit length of a fixed array (high, low)
+    pub lh: u128,
+    pub ll: u128,
 }
 
 pub fn payload<S: Src>(s: &mut S, kind: u8) -> Payload {
-    let mut p = Payload { kind, wc: 0, uc: 0, a: false, b: false };
+    let mut p = Payload { kind, wc: 0, uc: 0, a: false, b: false, lh: 0, ll: 0 };
     match kind {
         K_WORD => {
             p.wc = s.u8();
@@ -101,9 +104,15 @@ pub fn payload<S: Src>(s: &mut S, kind: u8) -> Payload {
                 None => {}
             }
         }
-        K_MAPPING | K_FIXED => {
+        K_MAPPING => {
             p.a = s.bool();
             p.b = s.bool();
+        }
+        K_FIXED => {
+            p.a = s.bool();
+            // lengths are arbitrary 256-bit words: arrays that agree in some of their bits only are different arrays
+            p.lh = s.u128();
+            p.ll = s.u128();
         }
         K_DYN => {
             p.a = s.bool();
@@ -121,7 +130,7 @@ pub fn build(p: &Payload) -> TE {
         K_WORD => TE::Word { width: WIDTHS[p.wc as usize], usage: usage_of(p.uc) },
         K_MAPPING => TE::Mapping { key: tv(1 + p.a as usize), value: tv(1 + p.b as usize) },
         K_DYN => TE::DynamicArray { element: tv(1 + p.a as usize) },
-        K_FIXED => TE::FixedArray { element: tv(1 + p.a as usize), length: U256::new(2 + p.b as u128) },
+        K_FIXED => TE::FixedArray { element: tv(1 + p.a as usize), length: U256::from_words(p.lh, p.ll) },
         _ => TE::Conflict { conflicts: Vec::new(), reasons: Vec::new() },
     }
 }
@@ -140,7 +149,7 @@ pub struct N {
     pub usage: u8,
     pub va: u8,
     pub vb: u8,
-    pub len: u8,
+    pub len: (u128, u128),
     pub eq12: bool,
     pub extra: u8,
 }
@@ -158,7 +167,7 @@ fn var_code(v: TypeVariable, eq12: bool) -> u8 {
 
 /// `eq12`: the equalities emitted along the way relate variable 1 and variable 2.
 pub fn normal(e: &TE, eq12: bool, extra: u8) -> N {
-    let mut n = N { kind: K_OTHER, width: 0, usage: 0, va: 0, vb: 0, len: 0, eq12, extra };
+    let mut n = N { kind: K_OTHER, width: 0, usage: 0, va: 0, vb: 0, len: (0, 0), eq12, extra };
     match e {
         TE::Any => n.kind = K_ANY,
         TE::Bytes => n.kind = K_BYTES,
@@ -179,7 +188,7 @@ pub fn normal(e: &TE, eq12: bool, extra: u8) -> N {
         TE::FixedArray { element, length } => {
             n.kind = K_FIXED;
             n.va = var_code(*element, eq12);
-            n.len = if *length.high() == 0 && *length.low() < 255 { *length.low() as u8 } else { 255 };
+            n.len = (*length.high(), *length.low());
         }
         TE::Conflict { .. } => n.kind = K_CONFLICT,
         _ => {}
@@ -472,8 +481,8 @@ pub fn join_same_constructor<S: Src, const K: u8>(s: &mut S) {
                 TE::FixedArray { element: e2, length: l2 },
                 TE::FixedArray { element, length },
             ) => {
-                assert!(*l1.low() == *l2.low(), "C15 join: fixed arrays of different lengths joined");
-                assert!((*element == *e1 || *element == *e2) && *length.low() == *l1.low() && *length.high() == 0, "C15 join: fixed array join does not keep element / length");
+                assert!(*l1.low() == *l2.low() && *l1.high() == *l2.high(), "C15 join: fixed arrays of different lengths joined");
+                assert!((*element == *e1 || *element == *e2) && *length.low() == *l1.low() && *length.high() == *l1.high(), "C15 join: fixed array join does not keep element / length");
                 if a != b {
                     assert!(m.equalities.len() == 1, "C15 join: fixed array join must emit exactly its element equality");
                     let e = m.equalities[0];
@@ -482,7 +491,7 @@ pub fn join_same_constructor<S: Src, const K: u8>(s: &mut S) {
             }
             (TE::FixedArray { length: l1, .. }, TE::FixedArray { length: l2, .. }, other) => {
                 // different lengths: the statement names no obligation; equal lengths must join
-                assert!(*l1.low() != *l2.low(), "C15 join: equal-length fixed arrays did not join to a fixed array");
+                assert!(*l1.low() != *l2.low() || *l1.high() != *l2.high(), "C15 join: equal-length fixed arrays did not join to a fixed array");
                 let _ = other;
             }
             _ => assert!(false, "C15 join: equal constructors did not keep their structure"),
